@@ -598,6 +598,20 @@ def resolve(op, ref, wn):
             setattr(wn.get_link(l), key + '_node', wn.get_node(new))
         return Step('%s:%s' % (name, d['kind']), call, lambda: d.__setitem__(key, new), creates_ref=True,
                     tags=['reassign_same_node'] if new == d[key] else [])
+    if name == 'reverse_link':
+        # the public helper wntr.morph.link.reverse_link swaps the end nodes in place (start := end, then end := start)
+        l = _pick(list(ref.links), a[0])
+        if l is None:
+            return None
+        d = ref.links[l]
+
+        def call_rev():
+            import wntr.morph.link as ml
+            ml.reverse_link(wn, l, return_copy=False)
+
+        def apply_rev():
+            d['start'], d['end'] = d['end'], d['start']
+        return Step('reverse_link:%s' % d['kind'], call_rev, apply_rev, creates_ref=True)
     if name == 'set_speed_pattern':
         l = _pick(ref.links_of('Pump'), a[0])
         if l is None:
@@ -759,7 +773,7 @@ OPS = [
     ('add_pipe', 3, 3), ('add_pump', 5, 4), ('add_valve', 4, 3), ('add_source', 2, 3), ('add_control', 6, 5),
     ('remove_node', 2, 6), ('remove_link', 2, 6), ('remove_pattern', 1, 3), ('remove_curve', 1, 3),
     ('remove_source', 1, 2), ('remove_control', 1, 1),
-    ('set_start', 2, 2), ('set_end', 2, 2), ('set_speed_pattern', 2, 2), ('set_head_pattern', 2, 2),
+    ('set_start', 2, 2), ('set_end', 2, 2), ('reverse_link', 1, 2), ('set_speed_pattern', 2, 2), ('set_head_pattern', 2, 2),
     ('set_vol_curve', 2, 2), ('set_pump_curve', 2, 1), ('set_headloss_curve', 2, 1), ('add_demand', 2, 2),
 ]
 
